@@ -35,31 +35,35 @@ func main() {
 			"hier: 1-16 digests of 1-6 blobs under names of depth<=5, random placements over ancestor levels; exhaustive: 3 digests x depth<=3 x every placement subset. " +
 			"distinct = configuration + operation kind + instance name (demux), mutation history (trie), placement pattern (hier)",
 		Workers: 8,
-		Floors: map[string]int64{
-			"trie_probes":                                 200000,
-			"trie_removes":                                4000,
-			"trie_removes_to_empty":                       100,
-			"trie_string_not_component_prefix_probes":     2000,
-			"trie_longest_prefix_shorter_hits":            20000,
-			"unknown_name_rejections":                     800,
-			"rewritten_ops":                               4000,
-			"rewrite_to_empty_ops":                        200,
-			"rewrite_from_empty_ops":                      100,
-			"nested_prefix_routes":                        2000,
-			"string_not_component_prefix_routes":          300,
-			"find_missing_multi_backend":                  300,
-			"find_missing_multi_partition":                500,
-			"find_missing_partitions_sharing_backend":     100,
-			"find_missing_present_under_ancestor_digests": 3000,
-			"find_missing_truly_missing_digests":          5000,
-			"reads_served_by_ancestor":                    2000,
-			"reads_with_several_holders":                  2000,
-			"trie_removals_under_composite":               200,
-			"trie_insertions_under_composite":             200,
-			"worlds_built_from_configuration":             500,
-			"worlds_built_direct":                         500,
+		Floors: map[string]int64{ // ~1/5 of what quick observes at seed 1; the exhaustive count is exact
+			"trie_probes":           600000,
+			"trie_removes":          12000,
+			"trie_removes_to_empty": 3000,
+			"trie_string_not_component_prefix_probes":     30000,
+			"trie_longest_prefix_shorter_hits":            200000,
+			"unknown_name_rejections":                     12000,
+			"rewritten_ops":                               35000,
+			"rewrite_to_empty_ops":                        1800,
+			"rewrite_from_empty_ops":                      6000,
+			"nested_prefix_routes":                        10000,
+			"string_not_component_prefix_routes":          5000,
+			"find_missing_multi_backend":                  3000,
+			"find_missing_multi_partition":                5000,
+			"find_missing_partitions_sharing_backend":     3000,
+			"find_missing_present_under_ancestor_digests": 13000,
+			"find_missing_truly_missing_digests":          20000,
+			"find_missing_with_backend_failure":           700,
+			"reads_served_by_ancestor":                    8000,
+			"reads_with_several_holders":                  10000,
+			"reads_with_backend_failure":                  700,
+			"trie_removals_under_composite":               1400,
+			"trie_insertions_under_composite":             1800,
+			"worlds_built_from_configuration":             2300,
+			"worlds_built_direct":                         2300,
 			"hier_exhaustive_placements":                  27000,
-			"put_ops":                                     1500,
+			"put_ops":                                     10000,
+			"get_from_composite_ops":                      6000,
+			"get_capabilities_ops":                        3500,
 		},
 		Assumptions: []string{
 			"parent and child digest of GetFromComposite carry the same instance name (one REv2 request carries one instance name)",
@@ -75,8 +79,8 @@ func main() {
 
 func body(w *run.Worker) {
 	trieExhaustive(w)
-	w.Cases("trie", w.N(10000, 300000), trieCase(w))
-	w.Cases("demux", w.N(30000, 1200000), demuxCase(w))
+	w.Cases("trie", w.N(8000, 400000), trieCase(w))
+	w.Cases("demux", w.N(24000, 1600000), demuxCase(w))
 	hierExhaustive(w)
-	w.Cases("hier", w.N(18000, 800000), hierCase(w))
+	w.Cases("hier", w.N(14000, 1000000), hierCase(w))
 }
